@@ -1,6 +1,7 @@
 import TdVerif.Sexp
 import TdVerif.Model.Key
 import TdVerif.Model.C04Tree
+import TdVerif.Model.C04Spec
 
 namespace TdVerif.Drive
 open TdVerif Sexp
@@ -165,6 +166,11 @@ def handleC04 (cmd : String) (args : List Sexp) : Option Sexp :=
       let ks ← probes.mapM keyOf
       let (t', out) := step t op
       pure (.list [entryTo t', outTo out, obsTo t' ks])
+  | "c04.dstep", [t, op] => do
+      let t ← entryOf t
+      let op ← opOf op
+      let (t', out) := C04.dstep t op
+      pure (.list [entryTo t', outTo out])
   | "c04.unravel", [k] => do
       let k ← keyOf k
       pure (.list [pathTo (Key.unravelTupCpp k),
